@@ -20,6 +20,6 @@ for P in "$@"; do
   CRATE=$(python3 -c "import sys; sys.path.insert(0,'/verif'); from props import PROPS; print(PROPS['$P']['crate'])")
   (cd "$H" && cargo build --release --offline -q -p "$CRATE") || { echo "BUILD-FAILED $P"; continue; }
   echo "== $P (mutated tree)"
-  (cd "$V" && VERIF_ROOT="$V" "$H/target/release/$CRATE" "$P" --tier quick 2>&1 | grep -E "^(VIOLATION|KNOWN|OK|FAIL|MACHINERY)" | cut -c1-260 | head -8) || true
+  (cd "$V" && VERIF_ROOT="$V" "$H/target/release/$CRATE" "$P" --tier quick 2>&1 | grep -E "^(VIOLATION|OK|FAIL|MACHINERY)" | cut -c1-260 | head -8) || true
 done
 git -C "$R" checkout -q -- .
